@@ -408,7 +408,7 @@ pub fn run(r: &Report) {
     r.set_rule(
         "(i) all builder programs of length <= 2 over the full alphabet (push_opcode for 0x00 and 0x4f..0xff, push_int / push_scriptint \
          over 45 boundary values, push_slice with 12 boundary lengths x 2 contents + 6 one-byte values + 11 two..four-byte contents that read as small / negative-zero script numbers, push_verify) and all of length 3 \
-         (4 in thorough) over a 31-operation sub-alphabet, against a reference builder model (bytes, instruction list, minimal-push); \
+         (4 in thorough) over a 31-operation sub-alphabet, against a reference builder model (bytes, instruction list, minimal-push); the template constructors (new_p2pkh, new_p2sh, new_v0_wpkh, new_v0_wsh, new_witness_program for every version x length, to_p2sh, to_v0_p2wsh) against the byte forms; \
          (ii) read_scriptint on all byte strings of length <= 2 (<= 3 thorough) and an 8-value-per-byte menu at lengths 4..5, push_int \
          round trip for every n in [-70000, 70000] and the boundary set; (iii) every script [b0][b1][payload] for all 65536 (b0,b1) x \
          every total length 0..45, and every single-byte variation of the p2pkh / p2sh frames at lengths +-2, with and without blinder: \
@@ -443,6 +443,80 @@ pub fn run(r: &Report) {
     r.set_extra("builder_alphabet", json!(full.len()));
     progs.par_iter().for_each(|p| check_program(r, p));
     r.sample(json!({"builder_program": progs[progs.len() / 2], "reference_bytes": hex_short(&ref_build(&progs[progs.len() / 2]).0)}));
+
+    // ---- (i-b) the template CONSTRUCTORS: their bytes are the template's byte form, the matching predicate holds, an address is
+    // derived, and the address's output script is the constructed script
+    {
+        use elements::hashes::Hash as _;
+        let mut n_ctor = 0u64;
+        let mut check = |name: &str, sc: elements::Script, expect: Vec<u8>, pred: bool| {
+            n_ctor += 1;
+            r.trans(1);
+            let case = json!({"constructor": name, "script": crate::engine::hex(sc.as_bytes())});
+            if sc.as_bytes() != &expect[..] {
+                r.violation(format!("constructor/{}/bytes-differ-from-template", name), case.clone(), format!("built {} expected {}", crate::engine::hex(sc.as_bytes()), crate::engine::hex(&expect)));
+            }
+            if !pred {
+                r.violation(format!("constructor/{}/predicate-false", name), case.clone(), "the constructed script is not recognised as its own template");
+            }
+            match elements::Address::from_script(&sc, None, &elements::AddressParams::ELEMENTS) {
+                Some(a) if a.script_pubkey() == sc => {}
+                Some(_) => r.violation(format!("constructor/{}/address-script-differs", name), case.clone(), "Address::from_script(..).script_pubkey() != script"),
+                None => r.violation(format!("constructor/{}/no-address", name), case.clone(), "no address is derived from a standard template"),
+            }
+        };
+        for k in 0..8usize {
+            let h20: [u8; 20] = crate::props::c06::hash20(k);
+            let h32: [u8; 32] = crate::gen::pat32(k);
+            let sc = elements::Script::new_p2pkh(&<elements::PubkeyHash as elements::bitcoin::hashes::Hash>::from_byte_array(h20));
+            let mut e = vec![0x76, 0xa9, 0x14];
+            e.extend_from_slice(&h20);
+            e.extend_from_slice(&[0x88, 0xac]);
+            let p = sc.is_p2pkh();
+            check("new_p2pkh", sc, e, p);
+            let sc = elements::Script::new_p2sh(&elements::ScriptHash::from_byte_array(h20));
+            let mut e = vec![0xa9, 0x14];
+            e.extend_from_slice(&h20);
+            e.push(0x87);
+            let p = sc.is_p2sh();
+            check("new_p2sh", sc, e, p);
+            let sc = elements::Script::new_v0_wpkh(&<elements::WPubkeyHash as elements::bitcoin::hashes::Hash>::from_byte_array(h20));
+            let mut e = vec![0x00, 0x14];
+            e.extend_from_slice(&h20);
+            let p = sc.is_v0_p2wpkh() && sc.is_witness_program();
+            check("new_v0_wpkh", sc, e, p);
+            let sc = elements::Script::new_v0_wsh(&elements::WScriptHash::from_byte_array(h32));
+            let mut e = vec![0x00, 0x20];
+            e.extend_from_slice(&h32);
+            let p = sc.is_v0_p2wsh() && sc.is_witness_program();
+            check("new_v0_wsh", sc, e, p);
+            // conversions of an arbitrary script: hash160 / sha256 of its bytes (own SHA-256 for the latter)
+            let inner = elements::Script::from(crate::gen::blob(k * 37 % 90, k as u8));
+            let sc = inner.to_v0_p2wsh();
+            let mut e = vec![0x00, 0x20];
+            e.extend_from_slice(&crate::oracle::sha256::sha256(inner.as_bytes()));
+            let p = sc.is_v0_p2wsh();
+            check("to_v0_p2wsh", sc, e, p);
+            let sc = inner.to_p2sh();
+            let mut e = vec![0xa9, 0x14];
+            e.extend_from_slice(&elements::hashes::hash160::Hash::hash(inner.as_bytes()).to_byte_array());
+            e.push(0x87);
+            let p = sc.is_p2sh();
+            check("to_p2sh", sc, e, p);
+        }
+        for ver in 0..=16u8 {
+            let lens: Vec<usize> = if ver == 0 { vec![20, 32] } else { (2..=40).collect() };
+            for l in lens {
+                let prog = crate::gen::blob(l, ver);
+                let sc = elements::Script::new_witness_program(bech32::Fe32::try_from(ver).unwrap(), &prog);
+                let mut e = vec![if ver == 0 { 0 } else { 0x50 + ver }, l as u8];
+                e.extend_from_slice(&prog);
+                let p = sc.is_witness_program() && (ver == 0 || sc.is_v1plus_p2witprog()) && (ver != 1 || l != 32 || sc.is_v1_p2tr());
+                check("new_witness_program", sc, e, p);
+            }
+        }
+        r.set_extra("template_constructor_calls", json!(n_ctor));
+    }
 
     // ---- (ii)
     let maxlen = if thorough { 3 } else { 2 };
